@@ -281,7 +281,7 @@ def zero_run(corpus, rng):
     i = rng.choice(heads) if heads and rng.random() < 0.6 else rng.choice(cand)
     u = units[i]
     body = len(u) - 13
-    pos = 13 + rng.choice([0, 0, 1, 1, 2, 3, rng.randrange(body + 1)])
+    pos = min(len(u), 13 + rng.choice([0, 0, 1, 1, 2, 3, rng.randrange(body + 1)]))
     if rng.random() < 0.5 and pos > 13:
         # make sure the run starts inside a field: clear the low bits of the byte before it
         u[pos - 1] &= 0xFF << rng.randrange(1, 8) & 0xFF
